@@ -344,12 +344,15 @@ func retryCases(r *rand.Rand) []retryCase {
 	plan := gen.Plan(r, o)
 	hrr := gen.ServerHelloRecord(r, true, plan.OuterBase.SID)
 	var out []retryCase
-	classOf := map[string]string{"G": "", "P": "illegal", "V": "illegal", "N": "missing", "I": "illegal", "S": "illegal", "E": "illegal", "B": "decrypt", "M": "illegal", "A": "illegal", "R": "illegal", "C": "illegal", "K": "", "Q": "illegal", "Z": "illegal"}
+	classOf := map[string]string{"G": "", "P": "illegal", "V": "illegal", "N": "missing", "I": "illegal", "S": "illegal", "E": "illegal", "B": "decrypt", "M": "illegal", "A": "illegal", "R": "illegal", "C": "illegal", "K": "", "Q": "illegal", "Z": "illegal", "NV": "missing", "X": ""}
 	// R: the same ALPN protocols in another order; C: the inner server name in another letter case;
 	// K: a well-formed second hello whose extension list legally differs from the first (RFC 8446 4.1.2:
 	// a cookie is added, early_data goes, padding changes, key_share is replaced)
 	// Q / Z: the second ClientHelloOuter has no server_name extension / an empty host name
-	for _, kind := range []string{"G", "P", "V", "N", "I", "S", "E", "B", "M", "A", "R", "C", "K", "Q", "Z"} {
+	// NV: no ECH extension and no TLS 1.3 either (a client falling back to a legacy hello): still the
+	// missing extension is what is wrong with it; X: a well-formed second hello whose OUTER extensions the
+	// inner one refers to have changed (new key_share): the second outer hello is the one that counts
+	for _, kind := range []string{"G", "P", "V", "N", "I", "S", "E", "B", "M", "A", "R", "C", "K", "Q", "Z", "NV", "X"} {
 		s1 := gen.Seal(plan.OuterBase, 1, key, suite, plan.Enc.Body(), nil, 0x0301)
 		e2 := *plan.Enc
 		e2.Random = gen.RandBytes(r, 32)
@@ -406,6 +409,19 @@ func retryCases(r *rand.Rand) []retryCase {
 					base2.Exts[i] = gen.Versions(0x0303, 0x0302)
 				}
 			}
+		case "NV":
+			for i, e := range base2.Exts {
+				if e.Type == 43 {
+					base2.Exts[i] = gen.Versions(0x0303, 0x0302)
+				}
+			}
+		case "X":
+			for i, e := range base2.Exts {
+				if e.Type != 0 && e.Type != 16 && e.Type != 43 && e.Type != 0xfe0d {
+					base2.Exts[i] = gen.Ext{Type: e.Type, Data: gen.RandBytes(r, len(e.Data)+r.IntN(5))}
+				}
+			}
+			base2.SID = gen.RandBytes(r, len(base2.SID))
 		case "Q":
 			base2.Exts = slices.DeleteFunc(base2.Exts, func(e gen.Ext) bool { return e.Type == 0 })
 		case "Z":
@@ -433,7 +449,7 @@ func retryCases(r *rand.Rand) []retryCase {
 			second = edit(func(e *gen.ECHOuter) { e.Enc = gen.RandBytes(r, 32) })
 		case "B":
 			second = edit(func(e *gen.ECHOuter) { e.Payload = slices.Clone(e.Payload); e.Payload[len(e.Payload)/2] ^= 0x40 })
-		case "N":
+		case "N", "NV":
 			h, _, _ := gen.ParseRecord(s2.Rec)
 			_, i := gen.FindECH(h)
 			h.Exts = slices.Delete(h.Exts, i, i+1)
